@@ -191,6 +191,56 @@ Fixpoint trace_of (c : cfg) (thr : N) (st : state) (h : history) : list state :=
 Definition trace_from (c : cfg) (thr : N) (d : list file) (h : history) : list state :=
   trace_of c thr (start_on c d) h.
 
+(** ---- the octet level of get_last_seq_and_file ----
+    The abstract functions above take "the last line of a file" as the head of a list.  What the
+    code does to get it is spelled out here on octets, so that it is explicit that NO length
+    enters: `for line in fh: pass` cuts the text after every newline (octet 10) and leaves the
+    last piece in `line`, however long that piece is and however much text precedes it; `if
+    line:` skips a file without any octet; the branch is taken on the first character.  The
+    harness runs these functions on directories whose last line is up to tens of thousands of
+    octets long and compares with the text the code actually hands to json.loads / eval. *)
+Fixpoint lines_of (b : bytes) : list bytes :=
+  match b with
+  | [] => []
+  | x :: r =>
+      if x =? 10 then [x] :: lines_of r
+      else match lines_of r with
+           | [] => [[x]]
+           | l :: ls => (x :: l) :: ls
+           end
+  end.
+
+(** `line` after the loop ([] stands for both None and no octet) *)
+Definition last_line (b : bytes) : bytes := last (lines_of b) [].
+
+(** the loop over reversed(file_list): contents of the files NEWEST FIRST *)
+Fixpoint newest_line (fs : list bytes) : bytes :=
+  match fs with
+  | [] => []
+  | f :: r => match last_line f with [] => newest_line r | l => l end
+  end.
+
+(** what get_last_seq_and_file does with the line it found; [pj l] = json.loads(l)['seq'] and
+    [pl l] = eval(l)[1], None when they raise (left abstract: any two functions) *)
+Definition abs_line (pj pl : bytes -> option N) (l : bytes) : line :=
+  match l with
+  | [] => Blank
+  | x :: _ =>
+      if x =? 123 then match pj l with Some s => Full s | None => Torn end
+      else if x =? 91 then match pl l with Some s => Legacy s | None => Torn end
+      else Blank
+  end.
+
+Definition recover_octets (pj pl : bytes -> option N) (fs : list bytes) : option N :=
+  match newest_line fs with
+  | [] => Some 0
+  | l => seq_of_line (abs_line pj pl l)
+  end.
+
+(** the abstract file a text stands for (lines newest first) *)
+Definition abs_file (pj pl : bytes -> option N) (b : bytes) : file :=
+  File (rev (map (abs_line pj pl) (lines_of b))) (negb (last b 10 =? 10)) (len b).
+
 (** ---- rendering for the correspondence check (files oldest first, lines oldest first) ---- *)
 Definition sx_line (l : line) : sx :=
   match l with
@@ -201,5 +251,15 @@ Definition sx_file (f : file) : sx :=
 Definition sx_state (st : state) : sx :=
   SL [SL (map sx_file (rev (disk st))); sx_opt SN (alive st); SN (exits st); SN (nrep st)].
 Definition sx_trace (skip : nat) (t : list state) : sx := SL (map sx_state (skipn skip t)).
+(** what start-up parsed: which reader was called (1 json.loads, 2 eval, 0 none), and the text it
+    was given, as (octet count, first 24 octets, last 4 octets) *)
+Definition rep (x n : N) : bytes := repeat x (N.to_nat n).
+Definition sx_parsed (l : bytes) : sx :=
+  let k := match l with
+           | x :: _ => if x =? 123 then 1 else if x =? 91 then 2 else 0
+           | [] => 0
+           end in
+  if k =? 0 then SL [SN 0; SN 0; SB []; SB []]
+  else SL [SN k; SN (len l); SB (firstn 24 l); SB (skipn (length l - 4) l)].
 Definition sx_inventory : sx :=
   SL (map (fun t => match t with (a, b, p) => SL [sx_bool a; sx_bool b; sx_bool p] end) inventory).
